@@ -180,7 +180,11 @@ func (g *gen) stmt(b *block, sc *scope, d int) {
 	case k == 30:
 		g.anyStmt(b, sc)
 	case k == 31:
-		g.multiAssign(b, sc)
+		if r.Intn(2) == 0 {
+			g.multiAssign(b, sc)
+		} else {
+			g.orderStmt(b, sc)
+		}
 	default:
 		g.assign(b, sc)
 	}
@@ -978,7 +982,17 @@ func (g *gen) faultStmt(b *block, sc *scope) {
 		op = fmt.Sprintf("var %s any = %s\nprintln(%q, %s.(%s))", a, e, g.newID("t"), a, ot.Name)
 		g.feat("fault-assert")
 	case 7:
-		t := pick(r, []*Type{TInt, TString, TInt8, TUint16, TFloat64, TBool})
+		t := pick(r, []*Type{TInt, TString, TInt8, TUint16, TFloat64, TBool, TFloat32, TUint8, TInt64})
+		if g.cfg.Complex && r.Intn(6) == 0 {
+			t = TComplex
+		}
+		if r.Intn(3) == 0 {
+			// possibly a defined type: gc prints it as pkg.T(value)
+			t = g.basic()
+			if !g.cfg.PanicDefType {
+				t = under(t)
+			}
+		}
 		e, _ := g.expr(sc, t, 1)
 		op = fmt.Sprintf("panic(%s)", e)
 		g.feat("fault-panic-" + t.Name)
@@ -1031,4 +1045,45 @@ func (g *gen) faultStmt(b *block, sc *scope) {
 	b.add("println(%q)", g.newID("unreached?"))
 	b.ind--
 	b.add("}()")
+}
+
+// orderStmt exercises evaluation-order rules of the specification: the index
+// operands of a tuple assignment are evaluated before any assignment, and the
+// range expression of an array is evaluated once (the loop sees a copy).
+func (g *gen) orderStmt(b *block, sc *scope) {
+	r := g.r
+	switch r.Intn(3) {
+	case 0:
+		g.feat("tuple-assign-index-operand")
+		i, s := g.newID("i"), g.newID("s")
+		b.add("%s := %d", i, r.Intn(2))
+		b.add("%s := []int{10, 20, 30}", s)
+		b.add("%s, %s[%s] = %d, %s", i, s, i, 1+r.Intn(2), g.nc(sc, TInt, 1))
+		b.add("println(%q, %s, %s[0], %s[1], %s[2])", g.newID("t"), i, s, s, s)
+		m := g.newID("m")
+		k := g.newID("k")
+		b.add("%s := map[string]int{}", m)
+		b.add("%s := \"a\"", k)
+		b.add("%s, %s[%s] = \"b\", 7", k, m, k)
+		b.add("println(%q, %s, %s[\"a\"], %s[\"b\"])", g.newID("t"), k, m, m)
+	case 1:
+		g.feat("range-array-copy")
+		a := g.newID("a")
+		n := 2 + r.Intn(3)
+		b.add("%s := [%d]int{}", a, n)
+		b.add("for i := range %s {\n\t%s[i] = i + 1\n}", a, a)
+		b.add("for i, v := range %s {\n\t%s[%d] = 100 + i\n\tprintln(%q, i, v)\n}", a, a, n-1, g.newID("t"))
+		b.add("println(%q, %s[%d])", g.newID("t"), a, n-1)
+		// ranging over a pointer to the array or over a slice of it sees the writes
+		b.add("for i, v := range &%s {\n\t%s[%d] = 200 + i\n\tprintln(%q, i, v)\n}", a, a, n-1, g.newID("t"))
+		b.add("for i, v := range %s[:] {\n\t%s[%d] = 300 + i\n\tprintln(%q, i, v)\n}", a, a, n-1, g.newID("t"))
+	default:
+		g.feat("variadic-nil")
+		f := g.newID("vf")
+		b.add("%s := func(xs ...int) (bool, int) {\n\treturn xs == nil, len(xs)\n}", f)
+		b.add("{\n\tisNil, n := %s()\n\tprintln(%q, isNil, n)\n}", f, g.newID("t"))
+		b.add("{\n\tisNil, n := %s(1, 2)\n\tprintln(%q, isNil, n)\n}", f, g.newID("t"))
+		b.add("{\n\tisNil, n := %s([]int{}...)\n\tprintln(%q, isNil, n)\n}", f, g.newID("t"))
+		b.add("{\n\tisNil, n := %s(nil...)\n\tprintln(%q, isNil, n)\n}", f, g.newID("t"))
+	}
 }
